@@ -461,10 +461,12 @@ func (d *Data) TokenReader() xml.TokenReader {
 					for {
 						idx := strings.IndexAny(typed, "\n\r")
 						if idx == -1 {
+							// An empty value, or one that ends in a line break, leaves
+							// nothing behind the last separator.
 							if len(typed) > 0 {
 								lines = append(lines, typed)
-								break
 							}
+							break
 						}
 						lines = append(lines, typed[:idx])
 						typed = typed[idx+1:]
